@@ -1,6 +1,7 @@
 import RbV.Basic.Codec
 import RbV.Ref.MyersHit
 import RbV.Drv.C09
+import RbV.Model.MyersTraceback
 /-! Driver for property C10: Myers traceback and API agreement.
 
 `c10 <ws> <wl> <new|bld> <pattern> <amb> <wild> <search>/… => <obs>/…`
@@ -79,6 +80,13 @@ def checkSearch (eqv : Nat → Nat → Bool) (p : List Nat) (search obs : String
         if (if o.stop then got ≠ exp.take got.length else got ≠ exp) then
           .ok (some ("hits-differ-from-expected " ++ showPairs exp), "")
         else
+          -- the matrix-level model of the traceback rule (Subst > Ins > Del > Match) predicts start and path; it is
+          -- proved to yield accepted hits (`traceback_rule_sound`), so a difference is a different (valid) tie-break
+          -- or a drift of the model, never a violation
+          let mat := RbV.Model.MyersTraceback.matrix (unitW eqv) p t
+          let same := (o.hits ++ o.extra).all fun h =>
+            let r := RbV.Model.MyersTraceback.walkF (RbV.Model.MyersTraceback.Dm mat) (m + h.stop) m h.stop
+            r.1 == h.start && r.2.reverse == h.ops
           let indel := o.hits.any fun h => h.ops.any (fun x => x = Op.ins || x = Op.del)
           let tags := (if kind = "E" then " eager" else " lazy")
             ++ (if o.hits.any (fun h => h.dist > 0) then " nt" else "")
@@ -92,6 +100,7 @@ def checkSearch (eqv : Nat → Nat → Bool) (p : List Nat) (search obs : String
             ++ (if !o.extra.isEmpty then " nonhit-trace" else "")
             ++ (if o.unvisited > 0 then " unvisited-probed" else "")
             ++ (if o.hits.isEmpty then " nohit" else "")
+            ++ (if (o.hits ++ o.extra).isEmpty then "" else if same then " tb-model-same" else " tb-drift")
           .ok (none, tags)
     | _, _ => .error "search-parse"
   | _ => .error "search-arity"
